@@ -36,7 +36,8 @@ class AV:
         if self.prec != 'exact':
             bits.append(self.prec)
         if self.val is not None and self.kind in ('int', 'bool', 'str'):
-            bits.append(repr(self.val))
+            r_ = repr(self.val)
+            bits.append(r_ if len(r_) <= 80 else r_[:60] + '...' + r_[-12:])
         return '<' + ' '.join(bits) + '>'
 
 
@@ -624,6 +625,11 @@ class Evaluator:
         except (TypeError, ValueError, OverflowError, ZeroDivisionError) as e_:
             raise AbsRaise(type(e_).__name__, str(e_))
 
+    def is_inst(self, v: AV, cls: str) -> bool:
+        if v.kind == 'obj' and isinstance(v.val, tuple) and v.val[2] in self.class_table:
+            return cls in self.class_table[v.val[2]]['mro'] or cls == 'object'
+        return is_instance(v, cls)
+
     def _exc_matches(self, exc: str, names) -> bool:
         if names is None or exc in names or 'Exception' in names or 'BaseException' in names:
             return True
@@ -650,6 +656,19 @@ class Evaluator:
             else:
                 out.append(self.ev(a, env))
         return out
+
+    def _deep_python(self, v: AV):
+        v = self.unbox(v)
+        if v.kind == 'none':
+            return None
+        if v.kind == 'dict' and v.items is not None:
+            return {self._deep_python(kv.items[0]): self._deep_python(kv.items[1]) for kv in v.items}
+        if v.kind in ('list', 'tuple') and v.items is not None:
+            out = [self._deep_python(x) for x in v.items]
+            return out if v.kind == 'list' else tuple(out)
+        if v.kind in ('int', 'float', 'bool', 'str') and v.val is not None and not isinstance(v.val, tuple):
+            return v.val
+        raise Unknown('a value without a concrete carrier where a concrete one is needed')
 
     def _from_python(self, r) -> AV:
         if isinstance(r, tuple):
@@ -782,6 +801,30 @@ class Evaluator:
     def construct(self, cname: str, args: list, kwargs: dict | None = None) -> AV:
         obj = self.new_obj(cname, {})
         hit = self.class_lookup(cname, '__init__')
+        fields_ = self.class_table[cname].get('fields')
+        if hit is None and fields_ is not None:
+            # a dataclass: the generated __init__ binds the fields in order, defaults for the rest, then __post_init__
+            names_ = [n for n, _ in fields_]
+            kwargs = dict(kwargs or {})
+            if len(args) > len(names_) or any(k not in names_ for k in kwargs):
+                raise AbsRaise('TypeError', f'{cname}() got unexpected arguments')
+            vals_ = dict(zip(names_, args))
+            for k, v in kwargs.items():
+                if k in vals_:
+                    raise AbsRaise('TypeError', f'{cname}() got multiple values for {k}')
+                vals_[k] = v
+            at_ = self.obj_attrs(obj)
+            for n, d in fields_:
+                if n in vals_:
+                    at_[n] = vals_[n]
+                elif d is not None:
+                    at_[n] = self.ev(d, {})
+                else:
+                    raise AbsRaise('TypeError', f'{cname}() missing {n}')
+            post_ = self.class_lookup(cname, '__post_init__')
+            if post_ is not None and post_[0] == 'method':
+                self.call_function(post_[1], [obj])
+            return obj
         if hit is not None and hit[0] == 'method':
             self.call_function(hit[1], [obj] + list(args), kwargs)
         elif args or kwargs:
@@ -935,7 +978,7 @@ class Evaluator:
         if isinstance(p, ast.MatchOr):
             return any(self.match_pattern(q, subj, env) for q in p.patterns)
         if isinstance(p, ast.MatchClass) and not p.patterns and not p.kwd_patterns:
-            return any(is_instance(subj, c) for c in self._class_names(p.cls, env))
+            return any(self.is_inst(subj, c) for c in self._class_names(p.cls, env))
         raise Unknown(f'pattern {type(p).__name__}')
 
     # ---- expressions -------------------------------------------------------------------------------
@@ -1273,6 +1316,12 @@ class Evaluator:
                         parts.append(str(x_.val))
                     elif x_.kind == 'none':
                         parts.append('None')
+                    elif x_.kind in ('list', 'tuple', 'dict') and x_.items is not None:
+                        try:
+                            parts.append(str(self._deep_python(x_)))
+                        except Unknown:
+                            parts = None
+                            break
                     else:
                         parts = None
                         break
@@ -1341,6 +1390,16 @@ class Evaluator:
                 env[node.id].val[0] in ('class', 'name', 'localclass'):
             nm = env[node.id].val[1]
             return [table.get(nm, nm)]
+        if isinstance(node, (ast.Name, ast.Attribute, ast.Subscript, ast.Call)) and not (isinstance(node, ast.Name) and node.id not in env and
+                                                                                        node.id not in self.class_table):
+            try:
+                v_ = self.ev(node, env)
+            except Unknown:
+                v_ = None
+            if v_ is not None:
+                vs_ = list(v_.items) if v_.items is not None and v_.kind in ('tuple', 'list') else [v_]
+                if vs_ and all(x.kind == 'other' and isinstance(x.val, tuple) and x.val[0] in ('class', 'name', 'localclass') for x in vs_):
+                    return [table.get(x.val[1], x.val[1]) for x in vs_]
         if isinstance(node, ast.Name) and node.id[:1].isupper():
             return [node.id]                      # a class of the repository: matched against modelled objects by name
         raise Unknown(f'class expression {txt}')
@@ -1414,7 +1473,7 @@ class Evaluator:
             return const_av(n_)
         if name == 'isinstance':
             v = self.ev(node.args[0], env)
-            return const_av(any(is_instance(v, c) for c in self._class_names(node.args[1], env)))
+            return const_av(any(self.is_inst(v, c) for c in self._class_names(node.args[1], env)))
         if ast.unparse(f) in ('replace', 'dataclasses.replace') and len(node.args) == 1 and not (name is not None and name in env):
             o_ = self.ev(node.args[0], env)
             if o_.kind == 'obj' and isinstance(o_.val, tuple):
@@ -1425,6 +1484,25 @@ class Evaluator:
                     at_[k.arg] = self.ev(k.value, env)
                 return self.new_obj(o_.val[2], at_)
             raise Unknown('replace of a value that is not a modelled object')
+        if name in ('getattr', 'hasattr') and 2 <= len(node.args) <= 3 and name not in env:
+            o_ = self.ev(node.args[0], env)
+            a_ = self.ev(node.args[1], env)
+            if not isinstance(a_.val, str):
+                raise Unknown(f'{name} with an attribute name that is not a known text')
+            try:
+                got_ = self.ev(ast.Attribute(value=ast.Name(id='__obj__', ctx=ast.Load()), attr=a_.val, ctx=ast.Load()), {**env, '__obj__': o_})
+                return const_av(True) if name == 'hasattr' else got_
+            except AbsRaise as e_:
+                if e_.exc != 'AttributeError':
+                    raise
+            except Unknown:
+                if o_.kind == 'obj' or self.is_class_value(o_):
+                    raise
+            if name == 'hasattr':
+                return const_av(False)
+            if len(node.args) == 3:
+                return self.ev(node.args[2], env)
+            raise AbsRaise('AttributeError', f'no attribute {a_.val}')
         if name == 'issubclass' and len(node.args) == 2 and self.class_table:
             a_ = self.ev(node.args[0], env)
             if self.is_class_value(a_):
@@ -1785,6 +1863,17 @@ class Evaluator:
                 v0 = self.ev(node.args[0], env)
                 if v0.kind != 'str':
                     raise AbsRaise('TypeError', 'Parser must be a string or character stream')
+                if isinstance(v0.val, str):
+                    low_ = v0.val.lower()
+                    words_ = ('jan', 'feb', 'mar', 'apr', 'may', 'jun', 'jul', 'aug', 'sep', 'oct', 'nov', 'dec', 'mon', 'tue', 'wed', 'thu',
+                              'fri', 'sat', 'sun', 'am', 'pm', 'today', 'now', 'utc', 'gmt', 'z', 't', 'a', 'p', 'h', 'm', 's', 'ad', 'bc')
+                    import re as _re
+                    toks_ = _re.findall(r'[a-z]+', low_)
+                    if low_.strip() and not any(ch.isdigit() for ch in low_) and not any(any(t_.startswith(w_) for w_ in words_ if len(w_) >= 3) or
+                                                                                          t_ in words_ for t_ in toks_):
+                        raise AbsRaise('ParserError', 'a text without digits and without a month or day name is not a date')
+                    if not low_.strip():
+                        raise AbsRaise('ParserError', 'String does not contain a date')
                 raise Unknown('the date reading of a text')
             if txt in ('datetime.time', 'time') and not node.keywords:
                 return AV('other', val=('time',) + tuple(self.ev(a, env).val for a in node.args))
@@ -1855,6 +1944,14 @@ class Evaluator:
                 if f.attr == 'copy':
                     return AV('dict', items=recv.items)
                 return AV('list', items=tuple(kv if f.attr == 'items' else kv.items[0 if f.attr == 'keys' else 1] for kv in recv.items))
+            if recv.kind in ('list', 'tuple') and recv.items is not None and f.attr in ('index', 'count') and len(node.args) == 1:
+                x_ = self.ev(node.args[0], env)
+                hits_ = [i_ for i_, y_ in enumerate(recv.items) if self.eq(y_, x_)]
+                if f.attr == 'count':
+                    return const_av(len(hits_))
+                if not hits_:
+                    raise AbsRaise('ValueError', 'value is not in list')
+                return const_av(hits_[0])
             if recv.kind == 'list' and recv.items is not None and f.attr == 'copy' and not node.args:
                 return AV('list', items=recv.items)
             if recv.kind == 'str' and isinstance(recv.val, str) and f.attr in ('isdigit', 'isalpha', 'isupper', 'islower', 'isnumeric') \
@@ -1872,6 +1969,13 @@ class Evaluator:
                         return self._from_python(getattr(recv.val, f.attr)(*plain_))
                     except (ValueError, TypeError) as e_:
                         raise AbsRaise(type(e_).__name__, str(e_))
+            if recv.kind == 'str' and isinstance(recv.val, str) and f.attr in ('format', 'format_map'):
+                try:
+                    pa_ = [self._deep_python(x) for x in self._args(node, env)]
+                    pk_ = {k.arg: self._deep_python(self.ev(k.value, env)) for k in node.keywords if k.arg}
+                    return const_av(getattr(recv.val, f.attr)(*pa_, **pk_))
+                except (KeyError, IndexError, ValueError, TypeError) as e_:
+                    raise AbsRaise(type(e_).__name__, str(e_))
             if recv.kind == 'str' and isinstance(recv.val, str) and f.attr == 'join' and len(node.args) == 1:
                 parts_ = self.unbox(self.ev(node.args[0], env))
                 if parts_.items is None or not all(x.kind == 'str' and isinstance(x.val, str) for x in parts_.items):
